@@ -1,7 +1,7 @@
 """C05 - Parsing does not depend on how the stream is chunked or consumed."""
 from pysym.cx import harness
 
-from .C04 import PARTS
+from .C04 import PARTS, REAL_CONTAINERS, class_stream
 from .common import arbitrary_parser, decide
 
 OPS = ['none', 'get_message', 'pending', 'iterate', 'len+get', 'iterate+get']
@@ -196,12 +196,31 @@ def parser_queue(cx, N):
     cx.check(_same_messages(cx, got, whole), 'queue-same-as-whole')
 
 
+@harness(labels=['real-container-chunks-same-as-whole'])
+def real_chunks(cx, N, container):
+    """Real bytes / bytearray / memoryview / tuple / generator chunks: an opening fragment (possibly leaving a
+    sysex or a message in progress) in one call, then N byte-class representatives cut at a symbolic position
+    into two more calls; compared with the whole stream fed as one list."""
+    import mido
+    pre, items = class_stream(cx, N)
+    whole = mido.parse_all(list(pre + items))
+    mk = REAL_CONTAINERS[container]
+    cut = cx.choice('cut', N + 1)
+    p = mido.Parser()
+    got, exc = cx.raises(lambda: (p.feed(mk(pre)), p.feed(mk(items[:cut])), p.feed(mk(items[cut:])), list(p))[3],
+                         label='real-container-chunks-same-as-whole')
+    if exc is None:
+        cx.check(len(got) == len(whole) and all(a == b for a, b in zip(got, whole)),
+                 'real-container-chunks-same-as-whole')
+
+
 BOUNDS = {
     'quick': 'bounded direct: all byte strings of length <=2 x all chunkings x feed(list)/feed_byte x 6 retrieval ops '
              'between chunks, and length 3 x all 4 chunkings through feed(list) (no ops); inductive lemmas from every '
              'tokenizer state satisfying the invariant (buffer <=4, idle stale <=2) with 1 queued message: '
              'feed([b]) = feed_byte(b), feed([b1,b2]) = feed([b1]);feed([b2]), feed(empty) no-op; retrieval ops commute '
-             'with feeding and are FIFO for queues of 0..3 messages; ParserQueue for N<=2',
+             'with feeding and are FIFO for queues of 0..3 messages; ParserQueue for N<=2; real bytes/bytearray/memoryview/'
+             'tuple/generator chunks: 4 opening fragments x 21 byte-class representatives^2 x every cut',
     'thorough': 'bounded direct length 2 with list/tuple/feed_byte styles, length 3 with two styles; ParserQueue N<=3; lemma buffer <=8',
 }
 OUTSIDE = 'concurrent use (C10); streams longer than the direct bound rely on the inductive lemmas, which read the ' \
@@ -227,4 +246,7 @@ def JOBS(tier):
             jobs.append((retrieval_lemmas, {'k': k, 'active': active, 'j': j}, {'cost': 20}))
     for n in range(0, (2 if tier == 'quick' else 3) + 1):
         jobs.append((parser_queue, {'N': n}, {'cost': 10 ** n}))
+    for c in REAL_CONTAINERS:
+        for n in range(0, (2 if tier == 'quick' else 3) + 1):
+            jobs.append((real_chunks, {'N': n, 'container': c}, {'cost': 21 ** n}))
     return jobs
